@@ -61,6 +61,14 @@ def gen(rng, tier, k):
             for h in ch["holds"]:
                 if rng.random() < 0.3:
                     h[2] = 0.0
+    if rng.random() < 0.25:
+        # scroll velocities ahead of the first tempo point (lead-in) are scroll velocities all the same
+        for ch in spec["charts"]:
+            if ch.get("svs") and ch["bpms"]:
+                first = min(b[0] for b in ch["bpms"])
+                for sv in ch["svs"]:
+                    if rng.random() < 0.5:
+                        sv[0] = first - rng.choice([0.5, 100.0, 1000.0, 2500.0])
     if rng.random() < 0.2:
         # a tempo point repeating the value of the one before it (a bar-line reset) is a tempo point all the same
         for ch in spec["charts"]:
